@@ -876,7 +876,9 @@ def formula_grammar(table):
     # "5 L H2O" is looked up as an element symbol, which is an error.
     mixture << (grouped_mixture | compound)
     formula = (ungrouped_mixture | compound | grouped_mixture)
-    grammar = Optional(formula, default=Formula()) + StringEnd()
+    # Note: the default is created in parse_formula so that each parse of a
+    # blank string gets its own empty formula.
+    grammar = Optional(formula, default=None) + StringEnd()
 
     grammar.setName('Chemical Formula')
     return grammar
@@ -890,7 +892,8 @@ def parse_formula(formula_str, table=None):
     table = default_table(table)
     if table not in _PARSER_CACHE:
         _PARSER_CACHE[table] = formula_grammar(table)
-    return _PARSER_CACHE[table].parseString(formula_str)[0]
+    chem = _PARSER_CACHE[table].parseString(formula_str)[0]
+    return chem if chem is not None else Formula()
 
 def _count_atoms(seq):
     """
